@@ -262,3 +262,45 @@ def t_load_pairing_shared(world):
 _t_lps = tasks
 def tasks(tier):
     return _t_lps(tier) + [('load_pairing', t_load_pairing_shared)]
+
+
+# ---------------------------------------------------------------- C16.g: account migration - who may migrate, and what the two accounts look like afterwards (positions themselves: C02.f)
+def mk_migration(which):
+    def t(world):
+        import z3
+        from specs.handlers import run_handler, KERNELS
+        from specs.C12 import find_accounts
+        fnre = r'transfer_account::transfer_to_new_account$' if which == 'keypair' else r'transfer_account::transfer_to_new_account_pda$'
+        sname = 'TransferToNewAccount' if which == 'keypair' else 'TransferToNewAccountPda'
+        eng, f, args, res = run_handler(world, fnre, kernels=[k for k in KERNELS if k not in (r'set_flag$',)],
+                                        extra_opaque=[r'system_program::transfer$', r'transfer_fee$', r'is_allowed_cpi_for_third_party_id$'])
+        ob = Ob(f'C16.g.{which}', f'transfer_to_new_account ({which}): refused while the old account is in a flash loan or in receivership or was already migrated; afterwards old.migrated_to = the new account\'s key, '
+                'the new account belongs to the same group, carries the old flags, records where it came from, and its authority is the key named as new authority',
+                [f.name], 'handler mode; system-program transfer opaque; MarginfiAccount::initialize inlined; every accepting path'); ob.paths = len(res)
+        names = STRUCTS[sname]
+        for r, okc in ok_paths(res):
+            if ob.witness(eng, r, [okc]) is False: continue
+            accts = {}
+            for root in r['roots']: accts.update(find_accounts(eng, root))
+            ma = {c: sv for c, sv in accts.items() if 'MarginfiAccount' in sv.ty}
+            oi, ni = names.index('old_marginfi_account'), names.index('new_marginfi_account')
+            old = [c for c in ma if c.startswith(f'a0.1*.{oi}.')]; new = [c for c in ma if c.startswith(f'a0.1*.{ni}.')]
+            if len(old) != 1 or len(new) != 1: ob.fail(f'accounts: {list(ma)}'); continue
+            O, N = old[0], new[0]
+            f0 = fsym(O, 'MarginfiAccount', 'account_flags')
+            ob.prove(eng, r, [okc], z3.And((f0 / 2) % 2 == 0, (f0 / 16) % 2 == 0, fsym(O, 'MarginfiAccount', 'migrated_to') == 0),
+                     'refused in a flash loan, in receivership, or when already migrated', role='migration-gate')
+            cur = lambda a, n: ev(fget(eng, accts[a], 'MarginfiAccount', n))
+            K = lambda n: z3.Int(f'a0.1*.{names.index(n)}.key')
+            ob.prove(eng, r, [okc], z3.And(cur(O, 'migrated_to') == K('new_marginfi_account'), cur(N, 'migrated_from') == K('old_marginfi_account'), cur(N, 'group') == fsym(O, 'MarginfiAccount', 'group'),
+                                           cur(N, 'account_flags') == f0, cur(N, 'authority') == K('new_authority'),
+                                           cur(N, 'emissions_destination_account') == fsym(O, 'MarginfiAccount', 'emissions_destination_account')),
+                     'old -> new links, same group, flags and emissions destination carried over, authority = the named new authority', role='migration-links')
+        ob.need_witness()
+        return [ob]
+    return t
+
+
+_t16g = tasks
+def tasks(tier):
+    return _t16g(tier) + [('migration_keypair', mk_migration('keypair')), ('migration_pda', mk_migration('pda'))]
